@@ -420,7 +420,9 @@ def closeChildren (beh : Beh) (order : List Nat â†’ List Nat) : Nat â†’ State â†
 termination_by structural f => f
 end
 
-def closeFuel (st : State) : Nat := 2 * st.nscopes + 4
+/-- enough fuel for `Close` (proved: `GodiProofs/Container/Tree.lean`, `tree_close`): a scope's descendants are
+younger than it, and closing the `i`-th child of a table spends `i` units before descending -/
+def closeFuel (st : State) : Nat := (st.nscopes + 1) * (st.nscopes + 2) + 4
 
 def allocScope (st : State) (parent : Option Nat) (ctx : Nat) : State :=
   { st with nscopes := st.nscopes + 1,
